@@ -30,6 +30,14 @@ def handleSubtype (op : String) (args : List String) : Option String :=
       showRes (subAlg env defaultFuel [] t1 t2) ++ "\t" ++ (if gfpCheck env t1 t2 then "true" else "false")
   | "sub.compat", [e, a, b] => (parseEnvTys e a b).map fun (env, t1, t2) =>
       showRes (subAlg env defaultFuel [] t1 t2) ++ "\t" ++ (if gfpCheck env t1 t2 then "true" else "false")
+  | "sub.compat2", [e1, a, e2, b] =>
+    match (Sexp.parse e1).bind Env.ofSexp, (Sexp.parse a).bind Ty.ofSexp,
+          (Sexp.parse e2).bind Env.ofSexp, (Sexp.parse b).bind Ty.ofSexp with
+    | some env1, some t1, some env2, some t2 =>
+      let (env, t2') := mergeType env1 env2 t2
+      let (envS, t2S) := disjointUnion env1 env2 t2
+      some (showRes (subAlg env defaultFuel [] t1 t2') ++ "\t" ++ (if gfpCheck envS t1 t2S then "true" else "false"))
+    | _, _, _, _ => none
   | "sub.equal", [e, a, b] => (parseEnvTys e a b).map fun (env, t1, t2) =>
       showRes (eqAlg env defaultFuel [] t1 t2) ++ "\t-"
   | "sub.seq", [e, ts] =>
